@@ -87,8 +87,13 @@ def run(ctx):
             for c in compositions(N, K):
                 pr = multinomial_prob(c, p)
                 a = np.array(c)
-                pcv = Fraction(float(st.pc_n(a))).limit_denominator(10 ** 12)
-                vv = Fraction(float(st.varpc_n(a))).limit_denominator(10 ** 12)
+                g1, g2 = call_impl(st.pc_n, a), call_impl(st.varpc_n, a)
+                if g1[0] != 'ok' or g2[0] != 'ok':
+                    ctx.violation('property', 'pc_n / varpc_n raised %s on the count vector %s (probability %s under p=%s): the estimator has no '
+                                  'expectation there' % ((g1, g2), list(c), pr, p), dict(counts=list(c), p=[str(q) for q in p]), site='stats.pc_n')
+                    return
+                pcv = Fraction(float(g1[1])).limit_denominator(10 ** 12)
+                vv = Fraction(float(g2[1])).limit_denominator(10 ** 12)
                 e_pc += pr * pcv
                 e_pc2 += pr * pcv * pcv
                 e_var += pr * vv
@@ -115,7 +120,13 @@ def run(ctx):
             for c2 in compositions(N2, K):
                 s1 = np.repeat(np.arange(K), c1)
                 s2_ = np.repeat(np.arange(K), c2)
-                v = Fraction(float(st.pc(s1, s2_))).limit_denominator(10 ** 12)
+                g = call_impl(st.pc, s1, s2_)
+                if g[0] != 'ok':
+                    ctx.violation('property', 'pc(%s, %s) raised %s: the two-sample estimator is undefined on a sample of positive probability, '
+                                  'so E[pc(a,b)] = sum p_i q_i fails' % (s1.tolist(), s2_.tolist(), g[1]),
+                                  dict(a=s1.tolist(), b=s2_.tolist(), p=[str(x) for x in p], q=[str(x) for x in q]), site='stats.pc')
+                    return
+                v = Fraction(float(g[1])).limit_denominator(10 ** 12)
                 e += multinomial_prob(c1, p) * multinomial_prob(c2, q) * v
         tgt = sum(a * b for a, b in zip(p, q))
         ctx.case(sample=dict(N1=N1, N2=N2, p=[str(x) for x in p], q=[str(x) for x in q], E=float(e), target=float(tgt)),
